@@ -47,14 +47,14 @@ func Compare(slice []any, i int, j int, orderBy OrderByDefinition) (bool, error)
 	if orderBy[0].Value {
 		direction = -1
 	}
-	first, err := ExecReader(slice[i], key)
+	first, err := sortKey(slice[i], key)
 	if err != nil {
 		return false, err
 	}
 	if first == nil {
 		return false, nil
 	}
-	second, err := ExecReader(slice[j], key)
+	second, err := sortKey(slice[j], key)
 	if err != nil {
 		return false, err
 	}
@@ -66,4 +66,16 @@ func Compare(slice []any, i int, j int, orderBy OrderByDefinition) (bool, error)
 		return Compare(slice, i, j, orderBy[1:])
 	}
 	return res == direction, nil
+}
+
+// sortKey reads an ORDER BY key from an output row. An output column is named
+// by its alias as it is, whatever characters it holds (`full name`,
+// `first-name`, `count(*)`); only a key that is no column is read as a path
+func sortKey(row any, key string) (any, error) {
+	if columns, ok := row.(Map); ok {
+		if value, ok := columns[key]; ok {
+			return value, nil
+		}
+	}
+	return ExecReader(row, key)
 }
